@@ -189,6 +189,9 @@ func (p *Prog) pandoraFuncs() []*ssa.Function {
 	return p.pfuncs
 }
 
+// PandoraFuncs returns all functions of pandora packages incl. closures and generic instantiations.
+func (p *Prog) PandoraFuncs() []*ssa.Function { return p.pandoraFuncs() }
+
 // StaticCallSites returns the call instructions in pandora code that statically call fn (or its origin's instantiations).
 func (p *Prog) StaticCallSites(fn *ssa.Function) []ssa.Instruction {
 	if p.callSites == nil {
